@@ -13,7 +13,8 @@ def main():
     demo = os.path.join(wt, 'demo%s.py' % suf)
     if not (os.path.exists(patch) and os.path.exists(demo)):
         print('MISSING files in', wt, suf); return 1
-    sid = '%s-%s' % (prop, 'a' if n == '1' else 'b')
+    letters = os.environ.get('SEED_LETTERS', 'ab')      # second round of sub-agents: SEED_LETTERS=cd
+    sid = '%s-%s' % (prop, letters[0] if n == '1' else letters[1])
     scratch = '/tmp/verify-%s' % sid
     sh('git -C /repo worktree remove --force %s' % scratch)
     r = sh('git -C /repo worktree add -q %s HEAD' % scratch)
